@@ -77,9 +77,9 @@ Theorem C03_not_plain_get_bypasses_store : forall q, is_request_method_understoo
   Leaves (fun out => out = OErr \/ exists r r', out = OResp r' /\ p_status r' = p_status r /\ p_body r' = p_body r) (round_trip q).
 Proof.
   intros q H. unfold round_trip. rewrite H. cbn [negb]. unfold handle_unrecognized_method. split.
-  - constructor. intros [|r]; [constructor|]. destruct (_ && _); [|constructor].
+  - destruct (req_only_if_cached _); [constructor|]. constructor. intros [|r]; [constructor|]. destruct (_ && _); [|constructor].
     unfold get_refs_clean. constructor. intros ans. apply invalidate_cache_noentry. constructor.
-  - constructor. intros [|r]; [constructor; left; reflexivity|].
+  - destruct (req_only_if_cached _); [constructor; right; exists response_504, response_504; repeat split|]. constructor. intros [|r]; [constructor; left; reflexivity|].
     assert (Hd : Leaves (fun out => out = OErr \/ exists r0 r', out = OResp r' /\ p_status r' = p_status r0 /\ p_body r' = p_body r0)
                    (Ret (OResp (with_hdr r (apply_status BYPASS (p_hdr r)))))).
     { constructor. right. exists r. eexists. split; [reflexivity|]. split; reflexivity. }
